@@ -12,6 +12,8 @@ def run(ctx: Ctx) -> None:
     t2_rot.run_quaternion_log(ctx)
     t2_rot.run_angle_axis(ctx)
     t2_rot.run_quaternion_angle_axis(ctx)
+    t2_rot.run_aliases(ctx)
+    ctx.floor("T6.helpers", 10)
     t2_rot.run_accessors(ctx)
     ctx.floor("T8.accessors", 20)
     ctx.floor("T2.euler-matrix", 49)
@@ -60,6 +62,11 @@ def mutants(prog):
         ("rotation vector to quaternion: full angle", K, "angle_axis_to_quaternion", "half_theta: torch.Tensor = theta * 0.5", "half_theta: torch.Tensor = theta", "T7.quat-angle-axis"),
         ("homogeneous_matmul: second operand cast to the first operand's integer dtype", L, "homogeneous_matmul", "b, b_type = as_homogeneous_tensor(b, dtype=dtype)", "b, b_type = as_homogeneous_tensor(b, dtype=args[0].dtype)", "integer operand"),
         ("hmm: result cast back to the first operand's dtype", L, "hmm", "return as_homogeneous_matrix(c)", "return as_homogeneous_matrix(c, dtype=b.dtype)", "integer operand"),
+        ("transform_vectors applies the translation", A, "transform_vectors", "vectors=True", "vectors=False", "T6.helpers"),
+        ("translation(): offset written into the first column", A, "translation", "matrix[..., D] = offset_", "matrix[..., 0] = offset_", "T6.helpers"),
+        ("identity_transform: homogeneous flag inverted", A, "identity_transform", "D + 1 if homogeneous else D", "D if homogeneous else D + 1", "T6.helpers"),
+        ("affine_rotation_matrix: third column not orthogonalised against the first", A, "affine_rotation_matrix", "matrix[..., 2] = matrix[..., 2].sub(matrix[..., 0].mul(tansxz.unsqueeze(-1)))", "matrix[..., 2] = matrix[..., 2].add(matrix[..., 0].mul(tansxz.unsqueeze(-1)))", "T6.helpers"),
+        ("rigid transform: translation getter returns the rotation", "deepali.spatial.linear", "RigidTransform.translation", "return self._transforms['translation']", "return self._transforms['rotation']", "T6.helpers"),
     ]
     for name, mod, fn, old, new, expect in specs:
         ov = source_sub(prog, mod, fn, old, new)
